@@ -1281,6 +1281,15 @@ theorem ur_validSymlink (cwd : Str) {dst : Str} (hdst : DstOK dst) {r : RelPath}
     · exact (hNr x (List.dropLast_subset r h)).1
   · rw [List.length_dropLast]; omega
 
+/-- … and so does the link test of `Unpack`: for a relative target it is `validSymlink` -/
+theorem ur_unpackLinkOK (cwd : Str) {dst : Str} (hdst : DstOK dst) {r : RelPath} (hr : r ≠ [])
+    (hNr : ∀ x ∈ r, NameNS x) {t : Str} (habs : isAbs t = false) {ups : Nat} {names : List Seg}
+    (hseg : pathSegs t = List.replicate ups dotdot ++ names) (hnames : ∀ s ∈ names, s ≠ dotdot)
+    (hups : ups < r.length) :
+    ∃ ln, pathRel dst (ofSegs (pathSegs dst ++ r)) = some ln ∧ unpackLinkOK cwd [] dst ln t = true := by
+  obtain ⟨ln, hrel, hv⟩ := ur_validSymlink cwd hdst hr hNr habs hseg hnames hups
+  exact ⟨ln, hrel, by rw [unpackLinkOK_of_rel cwd [] dst ln habs]; exact hv⟩
+
 /-! ## the branches of `unpackEntry` -/
 
 section branches
@@ -1290,7 +1299,7 @@ variable {cwd : Str} {allow : List Str} {priv : Bool} {dst : Str} {st : UState} 
 theorem ur_unpackEntry_link {ln : Str} (hn : e.name ≠ []) (hi : newUnpackInfo st.fs dst e = some path)
     (hm : st.fs.mkdirAll nowT (mkdirAllFuel (pathDir path)) (pathDir path) 0o755 = (fs1, none))
     (hs : e.isSymlink = true) (hrel : pathRel dst path = some ln)
-    (hv : validSymlink cwd allow dst ln e.link = true) (hsl : fs1.symlink e.link path nowT = .ok fs2) :
+    (hv : unpackLinkOK cwd allow dst ln e.link = true) (hsl : fs1.symlink e.link path nowT = .ok fs2) :
     unpackEntry cwd allow priv dst st e body be = ({ fs := fs2, dirs := st.dirs }, none) := by
   unfold unpackEntry
   rw [if_neg hn]
@@ -1584,7 +1593,7 @@ theorem ur_step {dstP : PPath} {cwd dst : Str} {priv : Bool} (hdst : DstOK dst) 
           · rw [Entry.not_dir_of_symlink hs] at h; cases h
           · rw [Entry.not_regular_of_symlink hs] at h; cases h
         obtain ⟨hl1, hl2, ups, names, hl3, hl4, hl5⟩ := hok.link hs
-        obtain ⟨ln, hrel, hv⟩ := ur_validSymlink cwd hdst hp0 hNr hl2 hl3 hl4 hl5
+        obtain ⟨ln, hrel, hv⟩ := ur_unpackLinkOK cwd hdst hp0 hNr hl2 hl3 hl4 hl5
         obtain ⟨fs2, hsl, hreal2, hview2⟩ := ur_symlink_view hd hND hp0 hNr hok.depth hreal1 hG1
           (by rw [hself1]; exact hnoneT) hab1 e.link hl1
         obtain ⟨tree', hut, htree'⟩ := ur_untar_link ust e hn hs hp0 hsim.inv hfreeT
